@@ -550,16 +550,23 @@ class GA:
                     a = _np.array([int(v) for v in a.flat], dtype=int).reshape(a.shape)
                 if _is_sym(d):
                     raise Unsupported(f"integer-array index into the symbolic axis {d}")
-                if a.ndim != 1:
-                    raise Unsupported("multi-dimensional integer-array index")
                 if a.size and (a.max() >= d or a.min() < -d):
                     raise IndexError(f"index out of bounds for axis {ax} with size {d}")
-                adv.append(len(out))
-                out.append(int(a.size))
+                adv.append((len(out), len(didx), a))
+                out.append(("adv", len(adv) - 1))
                 didx.append(a)
             ax += 1
-        if len(adv) > 1:
-            raise Unsupported("more than one integer-array index")
+        if adv:
+            # integer arrays indexing consecutive numerical axes broadcast against each other and take the place of those axes (numpy's rule for adjacent advanced indices)
+            pos = [k for _, k, _ in adv]
+            if pos != list(range(pos[0], pos[0] + len(pos))):
+                raise Unsupported("integer-array indices separated by other indices")
+            if len(adv) == 1 and adv[0][2].ndim != 1:
+                raise Unsupported("multi-dimensional integer-array index")
+            bshape = _np.broadcast_shapes(*[a.shape for _, _, a in adv])
+            first = [k for k, o in enumerate(out) if isinstance(o, tuple) and o[0] == "adv"][0]
+            out = [o for o in out if not (isinstance(o, tuple) and o[0] == "adv")]
+            out[first:first] = [int(n) for n in bshape]
         if adv and any(isinstance(i, (int,)) for i in didx):
             # numpy moves the advanced axis to the front when advanced indices (incl. integers) are separated by slices
             ints = [k for k, i in enumerate(didx) if isinstance(i, int)]
@@ -804,6 +811,17 @@ class GFe(GA):
 
     def integrate(self):
         return _reduce_sum(GA(self.sp, self.shape, self.data), 1)
+
+    def _assemble(self, *arrays, value):
+        """contract of FeArray._assemble: self[e, p, arrays[0][a], arrays[1][b], ...] = value[e, p, a, b, ...] for every (e, p)"""
+        arrays = [_np.asarray(a, dtype=int).ravel() for a in arrays]
+        v = self.sp.lift(value)
+        if v.ndim != 2 + len(arrays) or tuple(v.shape[2:]) != tuple(len(a) for a in arrays):
+            raise ShapeError(f"_assemble: value of shape {v.shape} for index arrays of lengths {[len(a) for a in arrays]}")
+        _bshape(self.shape[:2], v.shape[:2])
+        for pos in itertools.product(*[range(len(a)) for a in arrays]):
+            tgt = tuple(int(a[k]) for a, k in zip(arrays, pos))
+            self.data[(slice(None), slice(None)) + tgt] = v.data[(slice(None), slice(None)) + pos]
 
     def _rank_of(self, o):
         if isinstance(o, GFe):
